@@ -41,6 +41,16 @@ func extraSamples(rng *rand.Rand) (names []string, data [][]byte) {
 	tw.Write([]byte("abc"))
 	tw.Close()
 	add("tar", tb.Bytes())
+	// a longer archive whose LATER members carry names that matter only for the first one (gpkg marker, other magics)
+	var tb2 bytes.Buffer
+	tw2 := tar.NewWriter(&tb2)
+	for i, nm := range []string{"pkg/metadata.txt", "pkg/a.bin", "pkg/b.bin", "pkg/c.bin", "pkg/d.bin", "pkg/e.bin", "pkg/image/gpkg-1", "MZ-tools/readme", "pkg/f.bin"} {
+		body := bytes.Repeat([]byte{byte('a' + i)}, 700)
+		tw2.WriteHeader(&tar.Header{Name: nm, Mode: 0o644, Size: int64(len(body)), ModTime: time.Unix(1700000000, 0)})
+		tw2.Write(body)
+	}
+	tw2.Close()
+	add("tar-9-members", tb2.Bytes())
 	z, _ := buildZip([]zipEntry{{"[Content_Types].xml", 40, 0}, {"_rels/.rels", 5, 0}, {"word/document.xml", 300, 0}}, true, false, rng, nil)
 	add("docx", z)
 	z2, _ := buildZip([]zipEntry{{"META-INF/MANIFEST.MF", 40, 0}, {"classes.dex", 5, 0}}, false, false, rng, nil)
@@ -105,6 +115,7 @@ func cutsweepMain(args []string) int {
 	fs.Parse(args)
 	rep := newReport("cutsweep")
 	rng0 := rand.New(rand.NewSource(*seed))
+	var hostileFields int
 	names, data := loadCorpus(*corpus)
 	en, ed := extraSamples(rng0)
 	names, data = append(names, en...), append(data, ed...)
@@ -130,6 +141,30 @@ func cutsweepMain(args []string) int {
 			data = append(data, v)
 		}
 	}
+	// hostile values in every 32-bit field position of the first 48 bytes (chunk / box / offset fields that a
+	// walker adds to a cursor): both byte orders, values around 2^32 and 2^31
+	for i := 0; i < base; i++ {
+		if len(data[i]) < 12 || i%3 != int(*seed)%3 {
+			continue
+		}
+		for off := 4; off+4 <= len(data[i]) && off <= 44; off += 4 {
+			for _, val := range [][4]byte{{0xFF, 0xFF, 0xFF, 0xF4}, {0xFF, 0xFF, 0xFF, 0xFF}, {0x80, 0x00, 0x00, 0x00}, {0xFF, 0xFF, 0xFF, 0xF0}} {
+				for _, le := range []bool{false, true} {
+					v := append([]byte{}, data[i]...)
+					for k := 0; k < 4; k++ {
+						if le {
+							v[off+k] = val[3-k]
+						} else {
+							v[off+k] = val[k]
+						}
+					}
+					names = append(names, fmt.Sprintf("%s~field@%d", names[i], off))
+					data = append(data, v)
+					hostileFields++
+				}
+			}
+		}
+	}
 	tree := mimetype.VerifTree()
 	var dets []func([]byte, uint32) bool
 	for _, n := range tree {
@@ -137,6 +172,29 @@ func cutsweepMain(args []string) int {
 			dets = append(dets, mimetype.VerifDetector(n.M))
 		}
 	}
+	// watchdog: a call on a header of a few KiB that has not returned after 60 s never will (C01: always terminates)
+	var wdMu sync.Mutex
+	inflight := map[int][]byte{}
+	since := map[int]time.Time{}
+	go func() {
+		for {
+			time.Sleep(time.Second)
+			wdMu.Lock()
+			for sh, h := range inflight {
+				if h != nil && time.Since(since[sh]) > 60*time.Second {
+					rep.violate(mkViolation("C01", "call-does-not-return", h, 3072, "a detection on this header has not returned after 60 s"))
+					rep.Evaluations = 1
+					rep.Extra["samples"] = len(data)
+					rep.Extra["headers"] = 0
+					rep.Extra["direct_detector_calls"] = 0
+					rep.Extra["registered_detectors"] = len(dets)
+					rep.write(*report)
+					os.Exit(0)
+				}
+			}
+			wdMu.Unlock()
+		}
+	}()
 	tmp, _ := os.MkdirTemp("", "vdrive-cut")
 	defer os.RemoveAll(tmp)
 	var mu sync.Mutex
@@ -179,9 +237,20 @@ func cutsweepMain(args []string) int {
 					for k := 0; k < *maxCuts; k++ {
 						cuts[rng.Intn(len(d)+1)] = true
 					}
+					// just behind every zip local-header signature (a walker that found the signature reads on)
+					for p := 0; p+4 <= len(d); p++ {
+						if d[p] == 'P' && d[p+1] == 'K' && d[p+2] == 3 && d[p+3] == 4 {
+							for n := p + 1; n <= p+34 && n <= len(d); n++ {
+								cuts[n] = true
+							}
+						}
+					}
 				}
 				for n := range cuts {
 					hdr := exact(d[:n])
+					wdMu.Lock()
+					inflight[sh], since[sh] = hdr, time.Now()
+					wdMu.Unlock()
 					rec := cutRec{Ev: "cut", Sample: names[si], N: n, NonNil: true, NonEmpty: true}
 					run := func(f func() *mimetype.MIME) {
 						rec.Calls++
@@ -242,6 +311,9 @@ func cutsweepMain(args []string) int {
 					}
 				}
 			}
+			wdMu.Lock()
+			inflight[sh] = nil
+			wdMu.Unlock()
 			w.Flush()
 			f.Close()
 			mu.Lock()
@@ -259,6 +331,7 @@ func cutsweepMain(args []string) int {
 	rep.Extra["headers"] = totalRecs
 	rep.Extra["direct_detector_calls"] = detectorCalls
 	rep.Extra["registered_detectors"] = len(dets)
+	rep.Extra["hostile_field_variants"] = hostileFields
 	rep.sample(map[string]any{"samples": names[:6], "generated": en})
 	rep.write(*report)
 	return 0
